@@ -14,7 +14,7 @@ check("C05", "dsu", "model_checking",
       "DESIGN.md §4 C05")
 
 check("C01", "seg", "model_checking",
-      "Breadth-first search over the real Segtree's own node array (hook verif_nodes) with a plain-array model in lockstep. To CLOSURE (histories of any length over set/modify/ask/debug from all three constructors) for a finite non-commutative algebra (words over {0,1} with the four non-commuting functions as modifiers), a second one over Z3, a lazy item with a data-less modifier (M = ()), Sum<Z3>, Min/Max<u8>, SumAdd<Z4>, an arithmetic-progression item whose push gives the two children DIFFERENT modifiers (the right child's is offset by the left child's length), a Combinator of two NON-commutative parts and nested Combinators, for every n <= 6 (quick) / 7 (thorough). Bounded depth: the free algebra (decides 'every lawful item type', see DESIGN) n <= 9, the i64 built-ins and their Combinator nestings, elements at i64::MAX / i64::MIN, Min/Max over records compared by key only, and every algebra again with elements that carry a stale pending modifier (read back from another tree). Plus a size sweep: directed histories on the free algebra for every n <= 40 (130) and the neighbours of every power of two up to 1025 (4097).",
+      "Breadth-first search over the real Segtree's own node array (hook verif_nodes) with a plain-array model in lockstep. To CLOSURE (histories of any length over set/modify/ask/debug from all three constructors) for a finite non-commutative algebra (words over {0,1} with the four non-commuting functions as modifiers), a second one over Z3, a lazy item with a data-less modifier (M = ()), Sum<Z3>, Min/Max<u8>, SumAdd<Z4>, an arithmetic-progression item whose push gives the two children DIFFERENT modifiers (the right child's is offset by the left child's length), a Combinator of two NON-commutative parts, nested Combinators, and 27 'Pair' algebras (every built-in item of the crate in both positions of a Combinator with an INDEPENDENT non-commutative harness item that receives the same modifiers through a fixed translation, so modifiers that cancel in one part stay pending in the other), for every n <= 6 (quick) / 7 (thorough). Bounded depth: the free algebra (decides 'every lawful item type', see DESIGN) n <= 9, the i64 built-ins and their Combinator nestings, elements at i64::MAX / i64::MIN, Min/Max over records compared by key only, and every algebra again with elements that carry a stale pending modifier (read back from another tree). Plus a size sweep: directed histories on the free algebra for every n <= 40 (130) and the neighbours of every power of two up to 1025 (4097).",
       "Trusted: the harness item algebras satisfy the monoid-action laws; the free-algebra homomorphism argument of DESIGN §4 C01. Bounded: n above the closed sizes; depth for the unbounded-value algebras.",
       "explicit-state BFS to closure over the implementation's node array, lockstep plain-array reference model",
       "DESIGN.md §4 C01")
@@ -29,12 +29,12 @@ check("C06", "mint", "exploration",
       "exhaustive small-scope input enumeration against an i128 reference, two build profiles",
       "DESIGN.md §4 C06")
 check("C07", "rational", "exploration",
-      "Exhaustive over the box |a|,|b|,|c|,|d| <= 8 (quick) / 16 (thorough) for Rational<i32>, <i64>, <i128>, unreduced and negative-denominator spellings included: 28 families (new, + - * / in by-value, by-reference and both assigning forms, neg, floor, ceil, ==, Hash, cmp, partial_cmp, antisymmetry; transitivity over all triples of distinct box values); all quadruples of a boundary set up to 2^30; and all pairs of 826 operands built from neighbouring Fibonacci / Lucas numbers <= 2^30 (Euclid chains up to 84 steps, longer than the bit width); overflowing cases computed exactly and skipped.",
+      "Exhaustive over the box |a|,|b|,|c|,|d| <= 8 (quick) / 16 (thorough) for Rational<i32>, <i64>, <i128>, unreduced and negative-denominator spellings included: 41 families (new, + - * / in by-value, by-reference and both assigning forms, neg, floor, ceil, == and != by value and by reference, Hash, cmp, partial_cmp, the four ordering operators by value and by reference, max / min / clamp, antisymmetry; transitivity over all triples of distinct box values; sort, sort_unstable, is_sorted, binary_search and iterator max / min on all triples, on short sequences over smaller boxes and on rotations of all box values); all quadruples of a boundary set up to 2^30; and all pairs of 826 operands built from neighbouring Fibonacci / Lucas numbers <= 2^30 (Euclid chains up to 84 steps, longer than the bit width); overflowing cases computed exactly and skipped.",
       "Trusted: i128 reference with its own gcd. Bounded: values outside the box and the boundary set.",
       "exhaustive small-scope input enumeration against an exact reference",
       "DESIGN.md §4 C07")
 check("C10", "geometry", "exploration",
-      "Every circle x line, ordered circle pair, ordered line pair, circle x point and line x point on an integer lattice ([-4,4]^2, radii <= 6 quick; [-6,6]^2, radii <= 8 thorough) and on its images under three rational rotations, quarter shifts and integer scalings up to |coordinate| ~ 1e3, the kind of contact decided exactly in i128; every exact tangency (circle-line, circle-circle inside/outside, border points) fed again with the radius changed by ±1e-8, ±3e-7, ±1e-5 (just outside the library's tolerance, class decided by the sign); circle pairs of extreme radius ratio (R up to 640 against r down to 0.5; thorough 2560 / 0.25) at centre distances R±r±delta for delta from 1e-3 down to 1e-8, 9 rational directions, 4 centres, both argument orders; a 'skew plane' in units of 2^-19 with 216 nearly axis-parallel lines (defining points 800 apart, 2^-7..2^-19 off axis) crossed with all lattice lines in both argument orders. Every returned point is checked against both primitives at 1e-7.",
+      "Every circle x line, ordered circle pair, ordered line pair, circle x point and line x point on an integer lattice ([-4,4]^2, radii <= 6 quick; [-6,6]^2, radii <= 8 thorough) and on its images under three rational rotations, quarter shifts and integer scalings up to |coordinate| ~ 1e3, the kind of contact decided exactly in i128; every exact tangency (circle-line, circle-circle inside/outside, border points) fed again with the radius changed by ±1e-8, ±3e-7, ±1e-5 (just outside the library's tolerance, class decided by the sign); circle pairs of extreme radius ratio (R up to 640 against r down to 0.5; thorough 2560 / 0.25) at centre distances R±r±delta for delta from 1e-3 down to 1e-8, 9 rational directions, 4 centres, both argument orders; circle pairs of NEARLY EQUAL radii (difference 65*2^-k down to 6e-8) and nearly concentric pairs on an exact 2^-43 grid with generic 53-bit radii and centres up to 1e3, at internal tangency and delta on either side of it; a 'skew plane' in units of 2^-19 with 216 nearly axis-parallel lines (defining points 800 apart, 2^-7..2^-19 off axis) crossed with all lattice lines in both argument orders. Every returned point is checked against both primitives at 1e-7.",
       "Trusted: exact integer classification; f64 evaluation of the exact intersection formula for the point oracle. Bounded: rational lattices, not all real configurations.",
       "exhaustive enumeration of exact-rational configurations with integer-arithmetic oracle",
       "DESIGN.md §4 C10")
@@ -54,7 +54,7 @@ check("C13", "sieve", "exploration",
       "exhaustive enumeration of all limits and all arguments up to the bound",
       "DESIGN.md §4 C13")
 check("C14", "rand", "exploration",
-      "gen_from_u64 called directly with an adversarial raw alphabet for every (start,end) of all five range forms of i8/u8 and boundary ranges of the wider types (in-range and reachability), a grid of finite f64 ranges x 2273 raw values (start <= x < end), determinism over 65k seeds, shuffle over 216000 enumerated seeds (permutation, every order of <= 6 elements reached, counts within [mean/2, 2*mean]), and absence of any period <= max(n, 1024) in streams drawn through EVERY range form of every integer type over value sets of up to 2^16 values (full-width forms of the 8- and 16-bit types included), exact period search.",
+      "gen_from_u64 called directly with an adversarial raw alphabet for every (start,end) of all five range forms of i8/u8 and boundary ranges of the wider types (in-range and reachability), a grid of finite f64 ranges x 2273 raw values (start <= x < end), determinism over 66k seeds (dense, boundary and 903 structured 64-bit seeds: single bits, shifted small multipliers, low / high masks, top bytes, patterns), shuffle over 216000 enumerated seeds plus 110879 structured ones (permutation and reachability) (permutation, every order of <= 6 elements reached, counts within [mean/2, 2*mean]), and absence of any period <= max(n, 1024) in streams drawn through EVERY range form of every integer type over value sets of up to 2^16 values (full-width forms of the 8- and 16-bit types included), from dense seeds and from the structured seeds, exact period search.",
       "Trusted: the deterministic count criteria stand in for 'near-equal frequency' and 'not periodic'; signed `..b` with b <= 0 is treated as an empty (out-of-domain) range as in the crate's tests.",
       "exhaustive enumeration of ranges x raw outputs and of seeds, deterministic count criteria",
       "DESIGN.md §4 C14")
@@ -74,35 +74,35 @@ check("C19", "tensor", "exploration",
       "exhaustive enumeration of shapes and indices",
       "DESIGN.md §4 C19")
 check("C20", "lambda", "exploration",
-      "Enumerates PROGRAMS: all macro shapes (31 capture patterns x 1..4 arguments x return type or none x both call syntaxes) with body template A, plus template D (a recursive call nested as an argument of a recursive call, and block arguments that mutate the captured state) for argument counts 1 and 4 and template T (arguments of reference, slice, &mut, owned and bool types in every position) — 1457 programs in quick, 5890 in thorough — are generated as Rust source, compiled against /repo's macro in two builds (without and with debug assertions / overflow checks, because cfg(debug_assertions) inside the macro is decided in the invoking crate), and run on one thread of one process against the equivalent hand-written recursive fn on a grid of arguments, the closure created once and called four times with data mutated, dropped and recreated in between; a shape that fails to compile or differs in result or captured state is a violation.",
+      "Enumerates PROGRAMS: all macro shapes (31 capture patterns x 1..4 arguments x return type or none x both call syntaxes) with body template A, plus template D (a recursive call nested as an argument of a recursive call, and block arguments that mutate the captured state) for argument counts 1 and 4 template T (arguments of reference, slice, &mut, owned and bool types in every position), template E (26 classes of argument expressions whose type only the parameter fixes: literal-only expressions beyond i32 for every integer type, float literals, Default::default(), .into(), parse, collect, None, untyped closures) and template N (identifier collisions: the recursion name equal to an argument, capture, local, loop variable or std name; names equal to the macro's internal identifiers) — 2201 programs in quick, 11738 in thorough — are generated as Rust source, compiled against /repo's macro in two builds (without and with debug assertions / overflow checks, because cfg(debug_assertions) inside the macro is decided in the invoking crate), and run on one thread of one process against the equivalent hand-written recursive fn on a grid of arguments, the closure created once and called four times with data mutated, dropped and recreated in between; a shape that fails to compile or differs in result or captured state is a violation.",
       "Trusted: the generator emits the same body text for both versions; rustc/cargo. Bounded: at most 4 captures and 4 arguments.",
       "exhaustive enumeration of macro invocation shapes, compiled and executed",
       "DESIGN.md §4 C20")
 
 check("C17", "c17", "model_checking",
-      "Two passes over the same 2-3 thread harness (each thread creates k nodes through from_item/insert_at and merges, splits, removes and collects on a treap it owns, then merges and splits three nodes with hand-set EQUAL priorities). loom pass: the treap crate's own source, copied at build time with thread_local!/std::sync/std::thread/statics rerouted to loom, explored under DPOR with preemption bound 2 (quick) / 3 and 3 threads (thorough), once with the main thread drawing a priority before spawning and once 'cold' (the threads' first creations are the first of the process); every unserialised outcome (per-thread priority streams + treap results) must be among the outcomes of the same bodies run with every operation under one lock, and treap results and tie shapes must equal the solo run. Miri pass: the same bodies free-running on real threads against the real crate; its vector-clock detector reports unsynchronised accesses (static mut, raw cells, Relaxed hand-made locks) that the cooperative scheduler cannot see.",
-      "Trusted: loom's model of the rerouted primitives; Miri's race detector (one free-running execution per configuration, schedule-independent for unordered access pairs). State shared through something the rewrite does not know is detected (first draw differs between executions) and ends in exit 2, not a verdict.",
+      "Two passes over the same 2-3 thread harness (each thread creates k nodes through from_item/insert_at and merges, splits, removes and collects on a treap it owns, then merges and splits three nodes with hand-set EQUAL priorities, then prints both treaps with {:?} and TreePrinter; a panic inside a thread's operations is a result). loom pass: every source file of the treap crate, copied at build time with thread_local!/std::sync/std::thread/statics rerouted to loom, explored under DPOR with preemption bound 2 (quick) / 3 and 3 threads (thorough), once with the main thread drawing a priority before spawning and once 'cold' (the threads' first creations are the first of the process); every unserialised outcome (per-thread priority streams + treap results) must be among the outcomes of the same bodies run with every operation under one lock, treap results and tie shapes must equal the solo run, and the renderings must equal those made again after all threads were joined; results that can be judged per execution end the exploration at the first bad one, and each exploration has a wall-time cap (reported). Miri pass: the same bodies free-running on real threads against the real crate; its vector-clock detector reports unsynchronised accesses (static mut, raw cells, Relaxed hand-made locks) that the cooperative scheduler cannot see.",
+      "Trusted: loom's model of the rerouted primitives; Miri's race detector (one free-running execution per configuration, schedule-independent for unordered access pairs). State shared through something the rewrite does not know is detected (first draw differs between executions) and ends in exit 2, not a verdict. Limits of loom's own run time (thread-local destructors touching loom objects, spin loops without yield) are recognised; the verdict then rests on the Miri pass alone and the evidence says so.",
       "stateless schedule exploration of the real code under loom (DPOR, preemption-bounded) + free-running Miri race detection",
       "DESIGN.md §4 C17")
 
 check("C03", "treap", "model_checking",
-      "Breadth-first search over states of up to 3 live treaps with at most N nodes where the EXPLORER chooses every priority rank (strictly between or tied with the live levels, also for insert_at: for a rank strictly between levels the live priorities are re-spaced to the two ends of the u32 range so that whatever the crate draws lands at that rank; for a rank tied with a level the draw is predicted by a per-thread copy of the crate's generator and the level moved onto it), so every weak ordering of priorities = every tree shape is realised; before every non-creating action the lowest and highest live priority are stretched to 0 and u32::MAX. Every action (new, merge of every ordered pair, split_at, split_by with an id predicate AND with every value predicate that is prefix-monotone on the current sequence, insert_at, remove_at, a lazy add-1 or assign-0 attached at the root, first/last/collect/size/root, merge with empty; nodes created by New and insert_at also with a stale pending tag) in every reached state against vector models; invariants in every state: collect() on a copy = model, root aggregate = fold, every node's cached size and aggregate = its own subtree. Closure for N <= 4 (quick) / 5 (thorough), all histories to depth 6 for N = 5 / 6. The same exploration runs a second time in a build with debug assertions and overflow checks.",
+      "Breadth-first search over states of up to 3 live treaps with at most N nodes where the EXPLORER chooses every priority rank (strictly between or tied with the live levels, also for insert_at: for a rank strictly between levels the live priorities are re-spaced to the two ends of the u32 range so that whatever the crate draws lands at that rank; for a rank tied with a level the draw is predicted by a per-thread copy of the crate's generator and the level moved onto it), so every weak ordering of priorities = every tree shape is realised; before every non-creating action the lowest and highest live priority are stretched to 0 and u32::MAX. Every action (new, merge of every ordered pair, split_at, split_by with an id predicate AND with every value predicate that is prefix-monotone on the current sequence, insert_at, remove_at, a lazy add-1 or assign-0 attached at the root, first/last/collect/size/root, merge with empty; nodes created by New and insert_at also with a stale pending tag) in every reached state against vector models; invariants in every state: collect() on a copy = model, root aggregate = fold, every node's cached size and aggregate = its own subtree. Closure for N <= 4 (quick) / 5 (thorough), all histories to depth 6 for N = 5 / 6. Beyond N nodes a directed sweep (labelled non-exhaustive) over tall and large shapes: 12 shape families (paths, zigzag, caterpillars, combs, balanced and mixed) of up to 1025 (2049) nodes built by struct literals, four pending-tag layouts, every operation at every / boundary positions, merges of all ordered pairs over a size set with four priority relations, judged with the same invariants. The exploration and a reduced sweep run a second time in a build with debug assertions and overflow checks.",
       "Trusted: the harness item is a lawful TreapItem (value in Z3, size, word aggregate, affine pending tag); vector model. Bounded: more than N live nodes / 3 live treaps.",
       "explicit-state BFS to closure over the real treap with explorer-chosen priorities, lockstep vector models",
       "DESIGN.md §4 C03")
 check("C16", "treap", "model_checking",
-      "(a) Heap order along every parent-child edge, consistently in one direction, is an invariant checked in every state of the C03 exploration (every priority ordering incl. ties and the extreme values 0 / u32::MAX, closure for N <= 4, bounded depth above). (b) Height: a directed menu of deterministic histories through the REAL priority generator (990 cases in quick), each in a process of its own at a stated stream offset and thread ordinal — single-treap orders (sorted appends and front insertion to 10^6 elements, middle / one-third insertion, rotations, append/remove alternation), block concatenation with a Treap::new() per block, k treaps filled round-robin for 17 values of k (every treap probed), sliding windows, fixed-length queues, node-free operations interleaved, regrowth after removals, and histories whose node creations are spread over threads: every thread ordinal 0..4095 of a process building a treap, chunks built on 2..32 threads and concatenated, nodes created round-robin by 2..32 live threads and merged at the back / front / middle — height probed at every doubling against 5*log2(n+1)+20. Labelled non-exhaustive.",
+      "(a) Heap order along every parent-child edge, consistently in one direction, is an invariant checked in every state of the C03 exploration (every priority ordering incl. ties and the extreme values 0 / u32::MAX, closure for N <= 4, bounded depth above). (b) Height: a directed menu of deterministic histories through the REAL priority generator (1800 cases in quick), each in a process of its own at a stated stream offset and thread ordinal — single-treap orders (sorted appends and front insertion to 10^6 elements, middle / one-third insertion, rotations, append/remove alternation), block concatenation with a Treap::new() per block, k treaps filled round-robin for 17 values of k (every treap probed), sliding windows, fixed-length queues, node-free operations interleaved, regrowth after removals, and histories whose node creations are spread over threads: every thread ordinal 0..4095 of a process building a treap, chunks built on 2..512 (1024) short-lived threads under three thread-lifetime policies (each worker spawned after the previous was joined, all workers kept alive, three resident threads) and concatenated in three orders, nodes created round-robin by 2..32 live threads and merged at the back / front / middle — height probed at every doubling against 5*log2(n+1)+20. Labelled non-exhaustive.",
       "Part (b) is an enumeration of a finite menu of deterministic executions, not of all histories; the probabilistic sentence of the property cannot be established by any bounded exploration and is used only to justify that a correct implementation never trips the bound on the menu.",
       "explicit-state BFS (heap-order invariant) + directed long histories for the height bound",
       "DESIGN.md §4 C16")
 
 check("C08", "reader", "fault_enumeration",
-      "Every execution is (input bytes, script of reader calls, delivery plan) where the harness's Read object owns every answer: for inputs up to 10 (quick) / 13 (thorough) bytes built from tokens x separators (CRLF, lone CR, blank lines, unterminated last line) ALL 2^(L-1) chunkings, plus every placement of one or two ErrorKind::Interrupted among the read calls for the shorter ones; for extreme values of all 12 integer types, tuples of arity 2..8 and multi-line text every placement of up to two deviations (short read / Interrupted) and byte-at-a-time delivery; for inputs as long as the observed internal buffer (65536) the interesting bytes (minus sign + digits, CR LF, whitespace run, end of input) at every offset around the boundary under 21 plans. Scripts: typed token reads in several widths per token, String, char, tuples, read_vec, read_line xk, read_lines, is_eof interposed, mixed. Results must equal an independent reference parser of the whole byte string for every delivery.",
+      "Every execution is (input bytes, script of reader calls, delivery plan) where the harness's Read object owns every answer: for inputs up to 10 (quick) / 13 (thorough) bytes built from tokens x separators (CRLF, lone CR, blank lines, unterminated last line) ALL 2^(L-1) chunkings, plus every placement of one or two ErrorKind::Interrupted among the read calls for the shorter ones; for extreme values of all 12 integer types, tuples of arity 2..8 and multi-line text every placement of up to two deviations (short read / Interrupted) and byte-at-a-time delivery; for inputs as long as the observed internal buffer (65536) the interesting bytes (minus sign + digits, CR LF, whitespace run, end of input) at every offset around the boundary under 21 plans. Plus every byte string over {digit, space, CR, LF} up to length 7 (8) under all chunkings (CR runs before LF, at the end, between tokens) and CR runs around the buffer boundary. Scripts: typed token reads in several widths per token, String, char, tuples, read_vec, read_line xk, read_lines, is_eof interposed, mixed. Every delivery must return exactly what the default delivery of the same bytes returns (all inputs), and that common result must equal an independent reference parser of the whole byte string (inputs for which the property defines the answer).",
       "Trusted: the reference parser (tokens = maximal non-whitespace runs; lines end at LF or CRLF; a lone CR belongs to the line — the last only used for the delivery-independence oracle). Not covered: non-ASCII input, error kinds other than Interrupted, scripts asking for tokens that are not there.",
       "deviation-bounded exhaustive enumeration of environment answers (all chunkings / all placements of <= 2 faults) on the real Reader",
       "DESIGN.md §4 C08")
 check("C09", "writer", "model_checking",
-      "The writer's only state is the fill level of its buffer (size observed at run time: 65536). From ALL 65537 fill levels (thorough; quick: [0,64] ∪ [B-64,B] ∪ every 1021st) one or two write actions from an alphabet of 263 (every integer type at 0/±1/MIN/MAX, every rendered length 1..40, chars, &str and String of lengths around 0, 45, B and 2B, vectors (also longer than the buffer), nested vectors, tuples of arity 2..8, the out!/outln! macros) followed by flush or drop; sink deviations (partial acceptance, Interrupted) enumerated up to two per execution; every value of i8/u8/i16/u16 (thorough: of u32/i32) and boundary values of the wide types rendered against to_string(). Sink bytes must equal the concatenated std renderings, nothing after flush is missing, and the real Reader reads the values back. The same enumeration runs in a second binary built with debug assertions (flush per write); both must agree.",
+      "The writer's only state is the fill level of its buffer (size observed at run time: 65536). From ALL 65537 fill levels (thorough; quick: [0,64] ∪ [B-64,B] ∪ every 1021st) one or two write actions from an alphabet of 263 (every integer type at 0/±1/MIN/MAX, every rendered length 1..40, chars, &str and String of lengths around 0, 45, B and 2B, vectors (also longer than the buffer), nested vectors, tuples of arity 2..8, the out!/outln! macros) followed by flush or drop, also through the public Writable::write trait method, and with the writer going out of scope by unwinding (user code panics after the writes, inside catch_unwind); sink deviations (partial acceptance, Interrupted) enumerated up to two per execution; every value of i8/u8/i16/u16 (thorough: of u32/i32) and boundary values of the wide types rendered against to_string(). Sink bytes must equal the concatenated std renderings, nothing after flush is missing, and the real Reader reads the values back. The same enumeration runs in a second binary built with debug assertions (flush per write); both must agree.",
       "Trusted: std's to_string/format as the rendering reference. Sinks never return Ok(0) and no error kind other than Interrupted. Histories longer than fill + two writes are covered only through the fill level they reach (the writer has no other state).",
       "reachable-state enumeration (all fill levels x write alphabet) with bounded sink-fault enumeration, two build profiles",
       "DESIGN.md §4 C09")
